@@ -1,5 +1,7 @@
 """C04 Every built-in kernel leaves the target invariant -- reduced claim: the glue between liesel's
 NUTS/HMC kernels and blackjax (Engine B, assume/guarantee); RW/IWLS/MH: C05+C06, Gibbs: C13, sequences: C09."""
+import os
+
 import jax
 import jax.numpy as jnp
 import numpy as np
@@ -155,6 +157,65 @@ def liesel_scenario(chk, kind):
     return obs, enc
 
 
+LEMMAS = {"C05": "Metropolis-Hastings acceptance rule (RW / IWLS / MH kernels accept with exactly min(1, ratio))",
+          "C06": "proposal densities and corrections of RW / IWLS / MH give the Metropolis-Hastings ratio (detailed balance)",
+          "C13": "Gibbs kernels draw from the full conditional", "C09": "a kernel sequence is the composition of its kernels on a coherent state"}
+
+
+def run_lemma(pid, only=None):
+    """the checks the reduced claim rests on are run as sub-processes against the same tree (their own evidence goes to a side directory)"""
+    import json
+    import subprocess
+    import sys
+    import tempfile
+    here = os.path.dirname(os.path.dirname(os.path.dirname(os.path.abspath(__file__))))
+    side = tempfile.mkdtemp(prefix=f"c04_{pid}_")
+    env = dict(os.environ)
+    env["VERIF_EVIDENCE_DIR"] = side
+    env["VERIF_REPLAY_DIR"] = side
+    env.pop("VERIF_ONLY", None)
+    if only:
+        env["VERIF_ONLY"] = only
+    p = subprocess.run([sys.executable, "-m", "vf.run", pid, "--tier", "quick"], capture_output=True, text=True, env=env, cwd=here, timeout=3000)
+    viol = []
+    for f in sorted(os.listdir(side)):
+        if f.startswith(pid + "_") and f.endswith(".json"):
+            try:
+                viol.append(json.load(open(os.path.join(side, f))))
+            except Exception:
+                pass
+    summary = next((l for l in p.stdout.splitlines() if l.startswith(f"[{pid}]")), "")
+    import shutil
+    shutil.rmtree(side, ignore_errors=True)
+    return p.returncode, viol, summary, (p.stdout + p.stderr)[-400:]
+
+
+def lemmas(chk):
+    from concurrent.futures import ThreadPoolExecutor
+    only = os.environ.get("VERIF_ONLY", "")
+    if only and not only.startswith("lemma:"):
+        return
+    todo = list(LEMMAS)
+    sel = None
+    if only.startswith("lemma:"):
+        _, pid, sel = only.split(":", 2)
+        todo = [pid]
+    with ThreadPoolExecutor(4) as ex:
+        res = list(ex.map(lambda pid: run_lemma(pid, sel), todo))
+    rows = []
+    for pid, (rc, viol, summary, tail) in zip(todo, res):
+        rows.append(dict(lemma=pid, exit=rc, summary=summary))
+        if rc == 1:
+            for v in viol[:3]:
+                chk.violation(f"lemma:{pid}:{v.get('signature')}", f"a lemma the invariance claim rests on fails -- {pid} ({LEMMAS[pid]}): {v.get('what')}",
+                              dict(v.get("replay", {}), delegated_to=pid, reproduced=True))
+            if not viol:
+                chk.harness_error(f"lemma:{pid}", f"{pid} exited 1 without a replay file: {tail}")
+        elif rc != 0:
+            chk.harness_error(f"lemma:{pid}", f"{pid} was inconclusive on this tree: {summary or tail}")
+    chk.extra["lemmas_run"] = rows
+
+
 def main():
     chk = Check("C04")
     obs = []
@@ -202,6 +263,7 @@ def main():
             else:
                 chk.harness_error(_Ob.signature, "key terms equal for the solver but the real keys differ")
     chk.run(obs)
+    lemmas(chk)
     chk.functions += ["liesel.goose.nuts.NUTSKernel._standard_transition/_blackjax_state/_blackjax_kernel", "liesel.goose.hmc.HMCKernel._standard_transition", "liesel.goose.kernel.ModelMixin.log_prob_fn/position",
                       "blackjax.mcmc.nuts.init / hmc.init (real, traced: jax.value_and_grad of the handed log-density)"]
     chk.bounds += ["one transition; state, probe position, step size and metric symbolic reals; blocks of one or two keys (shapes (2,), ())"]
@@ -211,5 +273,6 @@ def main():
                                   "RW/IWLS/MH: detailed balance = C05 (acceptance rule) and C06 (proposal densities); Gibbs: C13 (full conditional); sequences over disjoint blocks: C09 (each kernel "
                                   "targets the conditional of the same joint) + the composition theorem.")
     chk.assume("blackjax hmc/nuts kernels leave their logdensity_fn invariant (trusted); init_state / find_reasonable_step_size (data-dependent while loops) outside",
-               "real arithmetic", "detailed balance => invariance and composition of invariant kernels are theorems, not checked")
+               "real arithmetic", "detailed balance => invariance and composition of invariant kernels are theorems, not checked",
+               "the quick tiers of C05, C06, C13 and C09 are run as part of this check (sub-processes on the same tree): a failing lemma is reported as a violation of C04 with the lemma's replay")
     return chk.finish(technique=TECH)
